@@ -188,8 +188,15 @@ theorem C04_reject_stores_nothing_witness_import :
                    { ep := .csv, db := dbN, vmeas := [mN], recs := [.typed mN ⟨[tcol 1, ⟨vN, .i64, 1, 0⟩], [t0], 1⟩] }]).toOption.map
       (fun o => (o.1.map (fun r => (r.status, r.added)), o.2.stored)) = some ([(204, 0), (500, 1)], 1) := by decide
 
+/-- In every write/import handler of the CURRENT source all name validation is a pass of its own that
+is complete before the first record is handed to the buffer (no loop both validates and writes). This
+is what `step` encodes (validate, then `writeRecs`); folding the validation into a write loop flips the
+fact and this theorem no longer checks. -/
+theorem C04_validation_first_tied :
+    namesValidatedBeforeAnyWrite = true ∧ validationFirstAt.length = 7 := by decide
+
 /-- requests rejected by validation (library stage, database name, measurement name) leave the whole
-server state untouched -/
+server state untouched: a request rejected by NAME VALIDATION stores nothing -/
 theorem C04_reject_by_validation_unchanged (cfg : Cfg) (s s' : St) (r : Req) (resp : Resp)
     (hv : r.pre.isSome ∨ validDb r.db = false ∨ r.vmeas.any (fun m => !validMeas m) = true)
     (h : step cfg s r = .ok (resp, s')) : s' = s ∧ resp.added = 0 := by
